@@ -88,9 +88,14 @@ fn guarded(f: impl FnOnce()) -> Outcome {
         Err(payload) => {
             reset_depths();
             let runaway = payload.is::<Runaway>();
+            let iter_bomb = payload.is::<IterBomb>();
             // a payload is a `Box<dyn Any>`; dropping it must not be attributed to anyone
             drop(payload);
-            if runaway {
+            if iter_bomb {
+                // the harness's own iterator panicked after its last element (`#!extendp`): for the
+                // trace the call is over, every element has been reported
+                Outcome::Done
+            } else if runaway {
                 logf!("ret runaway");
                 Outcome::Runaway
             } else {
@@ -137,7 +142,12 @@ pub struct ExtItem {
     pub script: Script,
 }
 
+/// payload of the panic of an `#!extendp` iterator
+pub struct IterBomb;
+
 struct ExtState {
+    /// panic instead of returning `None` when the elements are used up
+    bomb: bool,
     queue: std::collections::VecDeque<ExtItem>,
     /// registry index of the element handed out last (accepted once the next one is asked for
     /// or the call returns)
@@ -160,7 +170,14 @@ impl Iterator for MarkIter {
             logf!("ret ok");
             subop_boundary();
         }
-        let it = st.queue.pop_front()?;
+        let it = match st.queue.pop_front() {
+            Some(it) => it,
+            None if st.bomb => {
+                drop(st);
+                std::panic::panic_any(IterBomb)
+            }
+            None => return None,
+        };
         logf!("op {} {}", it.k, it.line);
         let f = Fut::new(it.cid, it.script, false);
         st.prev = Some(f.idx());
@@ -252,7 +269,7 @@ fn param_usize(spec: &Spec, k: &str) -> Result<Option<usize>, String> {
 
 /// Check the parameters of a `new` line (so that `build` itself cannot fail on syntax).
 pub fn check_spec(spec: &Spec) -> Result<(), String> {
-    for k in ["cap", "n", "seed", "hlo"] {
+    for k in ["cap", "n", "seed", "hlo", "ihint"] {
         spec.num(k)?;
     }
     if let Some(v) = spec.params.get("hhi") {
@@ -399,10 +416,10 @@ impl Hist {
 
     /// `#!extend N`: the buffered `push` lines are the elements of one `extend` call (a panic of
     /// `push_back` inside it ends that call; what is left goes into another one)
-    pub fn run_extend(&mut self, items: Vec<ExtItem>) {
+    pub fn run_extend(&mut self, items: Vec<ExtItem>, bomb: bool) {
         let mut queue: std::collections::VecDeque<ExtItem> = items.into();
         while !queue.is_empty() && !self.dead {
-            let st = std::rc::Rc::new(std::cell::RefCell::new(ExtState { queue, prev: None }));
+            let st = std::rc::Rc::new(std::cell::RefCell::new(ExtState { bomb, queue, prev: None }));
             let st2 = st.clone();
             let st3 = st.clone();
             let coll = (*self.coll).as_mut().unwrap();
@@ -550,7 +567,13 @@ fn construct(decl: Decl) -> Coll {
     let seed = param_usize(&spec, "seed").unwrap_or(None);
     let use_iter = spec.flag("iter");
     // `lazy=1`: hand the constructor an iterator whose `size_hint` is `(0, Some(n))` instead of a Vec
-    let lazy = spec.flag("lazy");
+    let lazy = spec.flag("lazy") || spec.params.contains_key("ihint");
+    // what the iterator claims: `lazy=1` -> (0, Some(n)) like a filter iterator; `ihint=K` -> (K, Some(K)),
+    // whatever the number of elements really is (an iterator may lie in its size_hint)
+    let hint: (usize, Option<usize>) = match param_usize(&spec, "ihint").unwrap_or(None) {
+        Some(k) => (k, Some(k)),
+        None => (0, Some(inits.len())),
+    };
     let use_new = spec.flag("new");
     let no_inits = inits.is_empty();
 
@@ -579,7 +602,7 @@ fn construct(decl: Decl) -> Coll {
         Ty::Fub => {
             if use_iter {
                 let v = make_inits(inits, Fut::new);
-                Coll::Fub(in_crate(move || if lazy { FuturesUnorderedBounded::from_iter(v.into_iter().filter(|_| true)) } else { FuturesUnorderedBounded::from_iter(v) }))
+                Coll::Fub(in_crate(move || if lazy { FuturesUnorderedBounded::from_iter(Hinted { inner: v.into_iter(), hint }) } else { FuturesUnorderedBounded::from_iter(v) }))
             } else {
                 let cap = cap.unwrap_or(0);
                 Coll::Fub(in_crate(|| FuturesUnorderedBounded::new(cap)))
@@ -588,7 +611,7 @@ fn construct(decl: Decl) -> Coll {
         Ty::Fu => {
             if use_iter {
                 let v = make_inits(inits, Fut::new);
-                Coll::Fu(in_crate(move || if lazy { FuturesUnordered::from_iter(v.into_iter().filter(|_| true)) } else { FuturesUnordered::from_iter(v) }))
+                Coll::Fu(in_crate(move || if lazy { FuturesUnordered::from_iter(Hinted { inner: v.into_iter(), hint }) } else { FuturesUnordered::from_iter(v) }))
             } else if use_new || cap.is_none() {
                 Coll::Fu(in_crate(FuturesUnordered::new))
             } else {
@@ -598,12 +621,12 @@ fn construct(decl: Decl) -> Coll {
         }
         Ty::Mb => {
             let v = make_inits(inits, Src::new);
-            Coll::Mb(in_crate(move || if lazy { MergeBounded::from_iter(v.into_iter().filter(|_| true)) } else { MergeBounded::from_iter(v) }))
+            Coll::Mb(in_crate(move || if lazy { MergeBounded::from_iter(Hinted { inner: v.into_iter(), hint }) } else { MergeBounded::from_iter(v) }))
         }
         Ty::Mu => {
             if use_iter {
                 let v = make_inits(inits, USrc::new);
-                Coll::Mu(in_crate(move || if lazy { MergeUnbounded::from_iter(v.into_iter().filter(|_| true)) } else { MergeUnbounded::from_iter(v) }))
+                Coll::Mu(in_crate(move || if lazy { MergeUnbounded::from_iter(Hinted { inner: v.into_iter(), hint }) } else { MergeUnbounded::from_iter(v) }))
             } else if use_new || cap.is_none() {
                 Coll::Mu(in_crate(MergeUnbounded::new))
             } else {
@@ -614,7 +637,7 @@ fn construct(decl: Decl) -> Coll {
         Ty::Fob => {
             let mut c = if use_iter {
                 let v = make_inits(inits, Fut::new);
-                in_crate(move || if lazy { FuturesOrderedBounded::from_iter(v.into_iter().filter(|_| true)) } else { FuturesOrderedBounded::from_iter(v) })
+                in_crate(move || if lazy { FuturesOrderedBounded::from_iter(Hinted { inner: v.into_iter(), hint }) } else { FuturesOrderedBounded::from_iter(v) })
             } else {
                 let cap = cap.unwrap_or(0);
                 in_crate(|| FuturesOrderedBounded::new(cap))
@@ -629,7 +652,7 @@ fn construct(decl: Decl) -> Coll {
         Ty::Fo => {
             let mut c = if use_iter {
                 let v = make_inits(inits, Fut::new);
-                in_crate(move || if lazy { FuturesOrdered::from_iter(v.into_iter().filter(|_| true)) } else { FuturesOrdered::from_iter(v) })
+                in_crate(move || if lazy { FuturesOrdered::from_iter(Hinted { inner: v.into_iter(), hint }) } else { FuturesOrdered::from_iter(v) })
             } else if use_new || cap.is_none() {
                 in_crate(FuturesOrdered::new)
             } else {
@@ -673,15 +696,15 @@ fn construct(decl: Decl) -> Coll {
         Ty::Ja if spec.flag("zst") => {
             let cids: Vec<u32> = inits.iter().map(|(c, _)| *c).collect();
             let v = make_inits(inits, UnitFut::new);
-            Coll::JaUnit(in_crate(move || if lazy { join_all(v.into_iter().filter(|_| true)) } else { join_all(v) }), cids)
+            Coll::JaUnit(in_crate(move || if lazy { join_all(Hinted { inner: v.into_iter(), hint }) } else { join_all(v) }), cids)
         }
         Ty::Ja => {
             let v = make_inits(inits, Fut::new);
-            Coll::Ja(in_crate(move || if lazy { join_all(v.into_iter().filter(|_| true)) } else { join_all(v) }))
+            Coll::Ja(in_crate(move || if lazy { join_all(Hinted { inner: v.into_iter(), hint }) } else { join_all(v) }))
         }
         Ty::Tja => {
             let v = make_inits(inits, TryFut::new);
-            Coll::Tja(in_crate(move || if lazy { try_join_all(v.into_iter().filter(|_| true)) } else { try_join_all(v) }))
+            Coll::Tja(in_crate(move || if lazy { try_join_all(Hinted { inner: v.into_iter(), hint }) } else { try_join_all(v) }))
         }
     }
 }
@@ -705,6 +728,22 @@ fn supports_try_push(c: &Coll, front: bool) -> bool {
         matches!(c, Coll::Fob(_))
     } else {
         matches!(c, Coll::Fub(_) | Coll::Mb(_) | Coll::Fob(_))
+    }
+}
+
+/// An iterator that reports the `size_hint` it is told to report.
+struct Hinted<I> {
+    inner: I,
+    hint: (usize, Option<usize>),
+}
+
+impl<I: Iterator> Iterator for Hinted<I> {
+    type Item = I::Item;
+    fn next(&mut self) -> Option<I::Item> {
+        self.inner.next()
+    }
+    fn size_hint(&self) -> (usize, Option<usize>) {
+        self.hint
     }
 }
 
